@@ -176,7 +176,7 @@ def oracle_sid(ctx, case, impl, objs):
     if r["parsed"]["ok"] != r["id"] or any(type(a) is not type(b) for a, b in
                                           zip(r["parsed"]["ok"].values(), r["id"].values())):
         diff = [k for k in r["id"] if r["id"][k] != r["parsed"]["ok"][k]]
-        ctx.fail("C13/from_benchmark_id/unequal-id/" + "+".join(diff or ["type"]),
+        ctx.fail("C13/from_benchmark_id/unequal-id/" + ("+".join(diff or ["type"]) if len(diff) <= 2 else "many-fields"),
                  f"{s!r} parses back to {r['parsed']['ok']}, printed from {r['id']}", case)
     elif not (back == o):
         ctx.fail("C13/from_benchmark_id/unequal-id/__eq__", f"{s!r}: parsed id has equal fields but == is False", case)
@@ -605,5 +605,74 @@ def replay(ctx, case):
     run_batch(ctx, [case])
 
 
+class _Probe:
+    """minimal stand-in for Ctx while shrinking: runs the oracle (implementation only), records failure keys"""
+
+    def __init__(self):
+        self.keys, self.excluded = set(), 0
+
+    def fail(self, key, what, case, detail=None):
+        self.keys.add(key)
+
+    def tag(self, *a):
+        pass
+
+
+def _still_fails(case, key):
+    warnings.filterwarnings("ignore")
+    pr = _Probe()
+    try:
+        if case["kind"] == "sid":
+            if not is_valid_raw(case["raw"]):
+                return False
+            impl, objs = impl_sid(case["raw"])
+            oracle_sid(pr, case, impl, objs)
+        elif case["kind"] == "sol":
+            if not is_valid_raw(case["raw"]) or not case["pps"]:
+                return False
+            sid, sol = mk_solution(case["raw"], case["pps"])
+            oracle_sol(pr, case, sid, sol, sol.benchmark_id)
+        else:
+            return False
+    except Exception:  # noqa
+        return False
+    return key in pr.keys
+
+
 def shrink(case, key):
-    return case
+    """greedy: simpler field values / fewer planning problems while the same finding key is still produced"""
+    import copy
+    if case.get("kind") not in ("sid", "sol") or not _still_fails(case, key):
+        return case
+    cur = copy.deepcopy(case)
+
+    def attempt(mut):
+        nonlocal cur
+        cand = copy.deepcopy(cur)
+        try:
+            mut(cand)
+        except Exception:  # noqa
+            return
+        if cand != cur and _still_fails(cand, key):
+            cur = cand
+
+    if cur["kind"] == "sol":
+        for _ in range(4):
+            for i in range(len(cur["pps"])):
+                attempt(lambda c, i=i: c["pps"].pop(i))
+        for i in range(len(cur["pps"])):
+            attempt(lambda c, i=i: c["pps"].__setitem__(i, ["PM", 1, "JB1", c["pps"][i][3]]))
+            attempt(lambda c, i=i: c["pps"][i].__setitem__(3, i + 1))
+    for k, v in (("coop", False), ("country", "ZAM"), ("map_name", "a"), ("map_id", 1), ("version", "2020a"), ("config", None),
+                 ("config", 1), ("pred", None), ("pred", 1), ("pred", [1, 2]), ("beh", None)):
+        attempt(lambda c, k=k, v=v: c["raw"].__setitem__(k, v))
+    if isinstance(cur["raw"]["pred"], list):
+        for _ in range(4):
+            attempt(lambda c: c["raw"]["pred"].pop())
+        attempt(lambda c: c["raw"].__setitem__("pred", [min(x, 10) for x in c["raw"]["pred"]]))
+    for k in ("map_id", "config", "pred"):
+        if isinstance(cur["raw"][k], int):
+            for v in (2, 10, 11, 100, 101):
+                if cur["raw"][k] > v:
+                    attempt(lambda c, k=k, v=v: c["raw"].__setitem__(k, v))
+    return cur
